@@ -99,6 +99,12 @@ structure St where
       carries `claimed_htlcs`, i.e. the preimage, into the downstream monitor) -/
   downCsUpdate : Upd := .notYet
   downRaaUpdate : Raa := .notYet
+  /-- `actions_blocking_raa_monitor_updates` of the downstream channel holds the `RAAMonitorUpdateBlockingAction`
+      for this HTLC (pushed by every processed `update_fulfill_htlc`, removed by the upstream completion action) -/
+  blocker : Bool := false
+  /-- number of OTHER updates of the upstream channel that are in flight (the completion actions of the upstream
+      channel run only when its whole `in_flight_monitor_updates` list is empty) -/
+  upOther : Nat := 0
   up : Up := .pending
   /-- confirmations of B's downstream timeout spend when `onchainTimeoutBuried` was entered -/
   timeoutDepth : Nat := 0
@@ -115,6 +121,10 @@ inductive Op where
   | recvRaaDown
   /-- `ChainMonitor::channel_monitor_updated` for the named update -/
   | complete (w : Which)
+  /-- an unrelated update of the upstream channel is handed to `chain::Watch` and stays `InProgress` -/
+  | handUpOther
+  /-- ... and completes -/
+  | completeUpOther
   /-- the process dies; `lost = true`: updates still `InProgress` never reached the disk,
       `lost = false`: they had been written (the manager was just not told) -/
   | crash (lost : Bool)
@@ -149,17 +159,27 @@ def knowsPreimage (s : St) : Bool :=
 def handRaa (s : St) : St :=
   { s with downRaaUpdate := if s.sync then .durable else .handedToWatch }
 
-/-- mirrors `handle_monitor_update_completion_actions` → `EmitEventOptionAndFreeOtherChannel` →
-    `handle_monitor_update_release`: once the upstream preimage update is complete the blocker goes away and
-    the parked downstream update flies -/
+/-- the upstream channel's `in_flight_monitor_updates` is non-empty -/
+def upBusy (s : St) : Bool :=
+  (s.upPreimageHandedToWatch && !s.upPreimageDurable) || s.upOther != 0
+
+/-- mirrors `handle_monitor_update_release`: with no blocker left the parked downstream update flies -/
 def releaseBlocked (s : St) : St :=
-  if s.downRaaUpdate == .blocked && s.upPreimageDurable then handRaa s else s
+  if s.downRaaUpdate == .blocked && !s.blocker then handRaa s else s
+
+/-- mirrors `handle_monitor_update_completion_actions` (`EmitEventOptionAndFreeOtherChannel` /
+    `FreeDuplicateClaimImmediately`): the completion actions of the upstream channel run when ALL its in-flight
+    updates are complete; they remove the blocker and release the downstream channel -/
+def runUpActions (s : St) : St :=
+  if upBusy s then s else releaseBlocked { s with blocker := false }
 
 /-- mirrors `claim_funds_internal` → `claim_funds_from_htlc_forward_hop` → `claim_mpp_part`:
-    `NewClaim` gives the `PaymentPreimage` update to the upstream monitor; `DuplicateClaim` does nothing -/
+    `NewClaim` gives the `PaymentPreimage` update to the upstream monitor with the release as its completion
+    action; `DuplicateClaim` frees the (re-added) blocker at once, or — if upstream updates are in flight — once
+    they are complete -/
 def claimUpstream (s : St) : St :=
-  if s.upPreimageHandedToWatch then s
-  else releaseBlocked { s with upPreimageHandedToWatch := true, upPreimageDurable := s.sync }
+  if s.upPreimageHandedToWatch then runUpActions s
+  else runUpActions { s with upPreimageHandedToWatch := true, upPreimageDurable := s.sync }
 
 /-- mirrors `fail_htlc_backwards_internal`'s only callers for a forwarded HTLC: the `revoked_htlcs` of a
     `revoke_and_ack` whose monitor update completed, or the monitor's `HTLCUpdate` after `ANTI_REORG_DELAY` -/
@@ -173,16 +193,24 @@ def fulfilAllowed (s : St) : Bool := s.upPreimageDurable
 /-- all updates that are in flight complete (a restart with a synchronous persister replays
     `in_flight_monitor_updates` and each returns `Completed`) -/
 def completeAll (s : St) : St :=
-  let s1 := { s with upPreimageDurable := s.upPreimageHandedToWatch,
+  let s1 := { s with upPreimageDurable := s.upPreimageHandedToWatch, upOther := 0,
                      downCsUpdate := if s.downCsUpdate == .handedToWatch then .durable else s.downCsUpdate }
-  let s2 := releaseBlocked s1
+  let s2 := runUpActions s1
   { s2 with downRaaUpdate := if s2.downRaaUpdate == .handedToWatch then .durable else s2.downRaaUpdate }
+
+/-- mirrors the `pending_claims_to_replay` pass of `from_channel_manager_data`: every preimage a durable monitor
+    knows for a still-pending inbound HTLC is claimed upstream again -/
+def replayClaims (s : St) : St :=
+  if (durDownKnowsPreimage s || durUpKnowsPreimage s) && s.up == .pending then claimUpstream s else s
 
 def step (s : St) : Op → St
   | .setSync b => if s.alive then { s with sync := b } else s
   -- mirrors internal_update_fulfill_htlc: channel marks the HTLC, RAA blocker registered, claim goes upstream
+  -- (a retransmitted update_fulfill_htlc after a reconnect is processed again: DuplicateClaim)
   | .recvFulfilDown =>
-    if s.alive && s.down == .offered then claimUpstream { s with down := .fulfilSeen } else s
+    if s.alive && (s.down == .offered || s.down == .fulfilSeen) then
+      claimUpstream { s with down := .fulfilSeen, blocker := true }
+    else s
   | .recvFailDown =>
     if s.alive && s.down == .offered then { s with down := .failSeen } else s
   | .recvCsDown =>
@@ -194,32 +222,35 @@ def step (s : St) : Op → St
     if s.alive && s.downCsUpdate == .durable && s.downRaaUpdate == .notYet then
       match s.down with
       | .fulfilSeen =>
-        if s.upPreimageDurable then handRaa { s with down := .removedByFulfil }
-        else { s with down := .removedByFulfil, downRaaUpdate := .blocked }
+        if s.blocker then { s with down := .removedByFulfil, downRaaUpdate := .blocked }
+        else handRaa { s with down := .removedByFulfil }
       | .failSeen => handRaa { s with down := .removedByFail }
       | _ => s
     else s
   | .complete .up =>
-    if s.alive && s.upPreimageHandedToWatch then releaseBlocked { s with upPreimageDurable := true } else s
+    if s.alive && s.upPreimageHandedToWatch then runUpActions { s with upPreimageDurable := true } else s
   | .complete .downCs =>
     if s.alive && s.downCsUpdate == .handedToWatch then { s with downCsUpdate := .durable } else s
   | .complete .downRaa =>
     if s.alive && s.downRaaUpdate == .handedToWatch then { s with downRaaUpdate := .durable } else s
+  | .handUpOther =>
+    if s.alive && !s.sync then { s with upOther := s.upOther + 1 } else s
+  | .completeUpOther =>
+    if s.alive && s.upOther != 0 then runUpActions { s with upOther := s.upOther - 1 } else s
   | .crash lost =>
     if s.alive then
       if lost then { s with alive := false }
-      else { s with alive := false, upPreimageDurable := s.upPreimageHandedToWatch,
+      else { s with alive := false, upPreimageDurable := s.upPreimageHandedToWatch, upOther := 0,
                     downCsUpdate := if s.downCsUpdate == .handedToWatch then .durable else s.downCsUpdate,
                     downRaaUpdate := if s.downRaaUpdate == .handedToWatch then .durable else s.downRaaUpdate }
     else s
   -- mirrors from_channel_manager_data: claims recomputed from the durable monitors (`pending_claims_to_replay`),
-  -- in-flight updates replayed, completion actions of updates that are durable run
+  -- in-flight updates replayed, completion actions of updates that are durable run (the blocker itself is
+  -- rebuilt from the persisted `monitor_update_blocked_actions`)
   | .restart sy =>
     if s.alive then s else
-      let s1 := { s with alive := true, sync := sy }
-      let s2 := if (durDownKnowsPreimage s1 || durUpKnowsPreimage s1) && s1.up == .pending then claimUpstream s1 else s1
-      let s3 := if sy then completeAll s2 else s2
-      releaseBlocked s3
+      let s2 := replayClaims { s with alive := true, sync := sy }
+      runUpActions (if sy then completeAll s2 else s2)
   | .chainPreimage =>
     if s.alive && (s.down == .offered || s.down == .fulfilSeen || s.down == .failSeen) then
       claimUpstream { s with down := .onchainPreimage }
